@@ -25,6 +25,8 @@ ENV = {'map': None}         # harness-supplied environment for os.getenv (None =
 INET6 = {'fn': None}        # harness-supplied stub for socket.inet_pton(AF_INET6, sym)
 STUBS_USED = set()
 FUNC_STUBS = {}          # python function -> replacement used when an argument is symbolic
+PERMANENT_STUBS = {}     # the same, installed once (instrumented stdlib copies); never cleared
+IMPORTS = {'known': None}   # names a symbolic __import__ argument may equal (harness-supplied)
 
 _BUILTIN_METH = type(''.join)
 _KEYS_TYPES = (type({}.keys()), type({}.items()), type({}.values()))
@@ -196,6 +198,8 @@ def _str_method(slf, f, a, k):
             if _anysym(parts):
                 return sym_join(slf, parts)
             return slf.join(parts)
+    elif nm == 'format' and (any(_sym(x) for x in a) or any(_sym(x) for x in k.values())):
+        return OpaqueMsg('<fmt>')
     elif a and any(type(x) is SymStr for x in a):
         if nm in _str_promote:
             return getattr(symstr_of(slf), nm)(*a, **k)
@@ -285,6 +289,15 @@ def _builtin_func(f, a, k):
         return None
     if f is dict:
         raise Unsupported('dict(sym)')
+    if f is builtins.__import__:
+        known = IMPORTS['known']
+        if known is None or type(x) is not SymStr:
+            raise Unsupported('__import__ of a symbolic name (no stub installed)')
+        STUBS_USED.add('__import__ (symbolic name: one of the known packages or not importable)')
+        for nm in known:
+            if _eq(x, nm):
+                return f(nm, *a[1:], **k)
+        raise ModuleNotFoundError('No module named <symbolic>')
     if f in _NATIVE_OK:
         return f(*a, **k)
     raise Unsupported('builtin %s on symbolic argument' % getattr(f, '__name__', f))
@@ -303,6 +316,10 @@ def _vf_call(f, *a, **k):
         if FUNC_STUBS and tf is types.FunctionType and f in FUNC_STUBS and any(_sym(x) for x in a):
             STUBS_USED.add(getattr(f, '__module__', '?') + '.' + f.__name__)
             return FUNC_STUBS[f](*a, **k)
+        if PERMANENT_STUBS and tf is types.FunctionType and f in PERMANENT_STUBS \
+                and (any(_sym(x) for x in a) or any(type(x) is tuple and any(_sym(y) for y in x) for x in a)):
+            STUBS_USED.add('instrumented copy of ' + getattr(f, '__module__', '?') + '.' + f.__name__)
+            return PERMANENT_STUBS[f](*a, **k)
         if f is os.getenv:
             return _getenv(*a, **k)
         if f is copy.copy:
@@ -313,6 +330,12 @@ def _vf_call(f, *a, **k):
         slf = f.__self__
         ts = type(slf)
         if ts is types.ModuleType or slf is None:
+            if f is isinstance and a and type(a[0]) is SymStr:
+                # a symbolic string stands for a str
+                cls = a[1]
+                if cls is str or (type(cls) is tuple and str in cls):
+                    return True
+                return False
             if a and _sym(a[0]):
                 return _builtin_func(f, a, k)
             if f is getattr or f is hasattr:
@@ -517,6 +540,72 @@ class Finder(importlib.abc.MetaPathFinder):
             return spec
         spec.loader = Loader(spec.loader.name, spec.loader.path)
         return spec
+
+
+def instrumented_copy(modname, alias):
+    """An instrumented private copy of a pure-Python stdlib module (same source text as the
+    interpreter's, compiled through the same rewrite); functools.lru_cache wrappers are removed
+    so that no symbolic value is ever hashed."""
+    import importlib.util
+    spec = importlib.util.find_spec(modname)
+    src = open(spec.origin).read()
+    tree = Rewriter(alias).visit(ast.parse(src, spec.origin))
+    ast.fix_missing_locations(tree)
+    mod = types.ModuleType(alias)
+    mod.__file__ = spec.origin
+    mod.__package__ = modname.rpartition('.')[0]
+    sys.modules[alias] = mod
+    exec(compile(tree, spec.origin, 'exec', dont_inherit=True), mod.__dict__)
+    for k, v in list(vars(mod).items()):
+        w = getattr(v, '__wrapped__', None)
+        if w is not None and hasattr(v, 'cache_info'):
+            setattr(mod, k, w)
+    return mod
+
+
+_URLCOPY = [None]
+
+
+def install_urllib():
+    """urllib.parse.{urljoin, urldefrag, urlsplit, urlparse, urlunparse, urlunsplit} run through
+    an instrumented copy of urllib/parse.py whenever an argument is symbolic."""
+    if _URLCOPY[0] is not None:
+        return _URLCOPY[0]
+    import urllib.parse as real
+    mod = instrumented_copy('urllib.parse', 'vf_urllib_parse')
+
+    def _check_bracketed_host(hostname):
+        if type(hostname) is SymStr:
+            raise Unsupported('bracketed host in a symbolic URL (ipaddress module not modelled)')
+        return real._check_bracketed_host(hostname)
+    if hasattr(mod, '_check_bracketed_host'):
+        mod._check_bracketed_host = _check_bracketed_host
+
+    def _checknetloc(netloc):
+        if type(netloc) is not SymStr:
+            return real._checknetloc(netloc)
+        import unicodedata
+        dom = core.current().domain
+        if dom.full:
+            if netloc.isascii():
+                return
+            raise Unsupported('NFKC normalisation of a symbolic non-ASCII netloc in domain U')
+        # characters of the domain whose NFKC form introduces a URL delimiter (computed from the
+        # running interpreter); the real function raises ValueError exactly when one is present
+        bad = [c for c in dom.members if chr(c) not in '/?#@:'
+               and any(x in unicodedata.normalize('NFKC', chr(c)) for x in '/?#@:')]
+        for c in netloc.cs:
+            for b in bad:
+                if (c == b) if isinstance(c, int) else core.current().decide(c == b):
+                    raise ValueError('netloc contains invalid characters under NFKC normalization')
+    if hasattr(mod, '_checknetloc'):
+        mod._checknetloc = _checknetloc
+    for nm in ('urljoin', 'urldefrag', 'urlsplit', 'urlparse', 'urlunparse', 'urlunsplit'):
+        f = getattr(real, nm)
+        f = getattr(f, '__wrapped__', f) if False else f
+        PERMANENT_STUBS[f] = getattr(mod, nm)
+    _URLCOPY[0] = mod
+    return mod
 
 
 _installed = [False]
